@@ -33,14 +33,18 @@ def one(name):
     if not m:
         return name, False, out.strip()[-200:]
     lines = [l[:400] for l in out.splitlines() if l.startswith(("VIOLATION", "  monitor", "INCONCLUSIVE")) or "verdict=" in l]
+    tests = m.group(2)
+    if tests == "skipped" and meta.get("repo_head") == head and "passed" in (meta.get("test_suite_with_change") or ""):
+        # SKIP_TESTS=1: the test-suite result recorded for this very HEAD stands (only /verif changed since)
+        tests = meta["test_suite_with_change"]
     meta.update({
-        "test_suite_with_change": m.group(2), "demo_exit_with_change": int(m.group(3)), "demo_exit_without_change": int(m.group(4)),
+        "test_suite_with_change": tests, "demo_exit_with_change": int(m.group(3)), "demo_exit_without_change": int(m.group(4)),
         "check_exit_with_change": int(m.group(5)), "caught_by": f"./check {check} quick" if m.group(5) == "1" else None,
         "check_output": lines[:6], "repo_head": head,
     })
     json.dump(meta, open(os.path.join(dst, "meta.json"), "w"), indent=1)
-    good = "passed" in m.group(2) and "failed" not in m.group(2) and m.group(3) != "0" and m.group(4) == "0" and m.group(5) == "1"
-    return name, good, f"tests='{m.group(2)}' demo {m.group(3)}/{m.group(4)} check_rc={m.group(5)}"
+    good = "passed" in tests and "failed" not in tests and m.group(3) != "0" and m.group(4) == "0" and m.group(5) == "1"
+    return name, good, f"tests='{tests}' demo {m.group(3)}/{m.group(4)} check_rc={m.group(5)}"
 
 
 bad = 0
